@@ -488,7 +488,7 @@ func c02Run(raw json.RawMessage) interface{} {
 		return map[string]interface{}{"bad_case": err.Error()}
 	}
 	res := map[string]interface{}{"bases": f.bases, "sizes": f.sizes, "fsize": len(f.raw)}
-	var under io.Reader = bytes.NewReader(f.raw)
+	var under io.Reader = sourceFor(f.raw)
 	var gate *c02Gate
 	if c.Gate && c.Rd > 1 {
 		gate = c02NewGate(f.raw, f.bases)
